@@ -323,9 +323,6 @@ func walkW3(pj *simdjson.ParsedJson) ([]byte, error) {
 		if err != nil {
 			return out, err
 		}
-		if t3, err := r.AdvanceIter(&v); err != nil || t3 != simdjson.TypeNone {
-			return out, fmt.Errorf("W3: root holds a second value (%v, %v)", t3, err)
-		}
 	}
 	if n == 0 {
 		return out, errors.New("W3: no root element")
